@@ -134,14 +134,11 @@ def guarded_load(raw, cpu_s, desc=None, short=None, via=None):
 
 
 def demap(x):
-    """a load with a memory-map mode hands arrays back as np.memmap: the same values count as the same object"""
+    """a load with a memory-map mode hands arrays back as np.memmap: the same values count as the same object.  Arrays
+    only occur in the [obj, arr, {"k": arr}] shape made by gen_file; nothing else is rebuilt (aliasing inside obj stays)"""
     import numpy as np
-    if isinstance(x, np.memmap):
-        return np.array(x)
-    if type(x) is list:
-        return [demap(e) for e in x]
-    if type(x) is dict and any(isinstance(v, np.memmap) for v in x.values()):
-        return {k: demap(v) for k, v in x.items()}
+    if type(x) is list and len(x) == 3 and isinstance(x[1], np.memmap) and type(x[2]) is dict:
+        return [x[0], np.array(x[1]), {k: (np.array(v) if isinstance(v, np.memmap) else v) for k, v in x[2].items()}]
     return x
 
 
